@@ -180,6 +180,9 @@ func (m *c06Machine) alloc() (mm.Frame, *kernel.Error) {
 
 // envFrame hands a frame to the environment (test set-up), filled with fresh random bytes
 func (m *c06Machine) envFrame() uintptr {
+	if m.next >= c06NFrames {
+		m.next = c06NFrames - 1 // (never reached by the generators: a case uses < 100 frames)
+	}
 	f := (m.base >> 12) + uintptr(m.next)
 	m.next++
 	m.rng.Read(m.bytes(f))
@@ -534,7 +537,7 @@ func c06Err(err *kernel.Error) string {
 
 // boot: a hand-made boot address space, then the REAL vmm.Init (new kernel address space, fault
 // handlers, zero frame)
-func (d *c06Driver) boot(script string) bool {
+func (d *c06Driver) boot() bool {
 	m := d.m
 	m.reset()
 	earlyReserveLastUsed = tempMappingAddr
@@ -552,7 +555,7 @@ func (d *c06Driver) boot(script string) bool {
 	multiboot.SetInfoPtr(uintptr(unsafe.Pointer(&m.info[0])))
 	m.arm(0, false)
 	res := c06Call(func() string { return c06Err(Init(0xffff800000000000)) })
-	d.emit(c06Ev{"k": "init", "res": res, "script": script, "leg": os.Getenv("VERIF_LEG")})
+	d.emit(c06Ev{"k": "init", "res": res})
 	return res == "ok"
 }
 
@@ -713,9 +716,12 @@ var c06OtherAddrs = []uintptr{
 // run executes one case: boot, standard set-up (pages 1..3 lazily allocated from the zero frame exactly as
 // goruntime does, page 4 private and writable), then the script.
 func (d *c06Driver) run(script [][]interface{}) {
-	defer d.enc.Encode(c06Ev{"k": "reset"})
-	sj, _ := json.Marshal(script)
-	if !d.boot(string(sj)) {
+	executed := [][]interface{}{} // the concrete calls made (meta ops resolved): what a replay file holds
+	defer func() {
+		sj, _ := json.Marshal(executed)
+		d.enc.Encode(c06Ev{"k": "reset", "script": string(sj), "leg": os.Getenv("VERIF_LEG")})
+	}()
+	if !d.boot() {
 		return
 	}
 	for pg := 1; pg <= 3; pg++ {
@@ -729,6 +735,22 @@ func (d *c06Driver) run(script [][]interface{}) {
 			}
 			return 0
 		}
+		if op[0].(string) == "faultcow" {
+			// meta op (leg T): fault on a page that currently is present, read-only and copy-on-write, if there is one
+			var cand []int
+			for pg := 1; pg <= c06NP; pg++ {
+				w := d.m.walkVA(d.m.active, c06UVA[pg])
+				if w.mapped && w.leaf&2 == 0 && w.leaf&(1<<9) != 0 {
+					cand = append(cand, pg)
+				}
+			}
+			pg := 1 + d.m.rng.Intn(c06NP)
+			if len(cand) > 0 {
+				pg = cand[d.m.rng.Intn(len(cand))]
+			}
+			op = []interface{}{"fault", pg, a(1), a(2), a(3), a(4)}
+		}
+		executed = append(executed, op)
 		switch op[0].(string) {
 		case "fault":
 			if !d.fault(c06UVA[a(1)]+uintptr(a(2)&4095), uint64(a(3)), a(4), a(5) != 0) {
@@ -849,14 +871,18 @@ func c06RandomScript(rng *rand.Rand) [][]interface{} {
 		switch r := rng.Intn(100); {
 		case r < 30:
 			afail, tfail := 0, 0
-			switch rng.Intn(8) {
+			switch rng.Intn(12) {
 			case 0:
 				afail = 1 + rng.Intn(4)
 			case 1:
 				tfail = 1
 			}
-			op("fault", pg, rng.Intn(4096), codes[rng.Intn(len(codes))], afail, tfail)
-		case r < 35:
+			if r < 24 {
+				op("faultcow", rng.Intn(4096), codes[rng.Intn(len(codes))], afail, tfail)
+			} else {
+				op("fault", pg, rng.Intn(4096), codes[rng.Intn(len(codes))], afail, tfail)
+			}
+		case r < 33:
 			op("faultat", rng.Intn(len(c06OtherAddrs)), codes[rng.Intn(len(codes))], rng.Intn(4096))
 		case r < 47:
 			op("mapz", pg, randBits()|1, rng.Intn(3))
